@@ -142,6 +142,9 @@ const SSRC_INACTIVITY_EVICT: std::time::Duration = std::time::Duration::from_sec
 /// Far above any real SSRC count (simulcast, RTX, FEC, re-INVITE churn).
 const MAX_RX_CONTEXTS: usize = 1024;
 
+/// Hard upper bound on live transmit contexts (same reasoning, sending side).
+const MAX_TX_CONTEXTS: usize = 1024;
+
 impl SrtpSession {
     pub fn new(
         profile: SrtpProfile,
@@ -167,6 +170,7 @@ impl SrtpSession {
     pub fn protect_rtp(&mut self, packet: &RtpPacket, output: &mut [u8]) -> SrtpResult<()> {
         let ssrc = packet.header.ssrc;
         self.evict_stale_tx(ssrc);
+        self.refuse_new_tx_context_if_full(ssrc)?;
         let ctx = match self.tx_contexts.entry(ssrc) {
             Entry::Occupied(e) => e.into_mut(),
             Entry::Vacant(e) => e.insert(SrtpContext::new(
@@ -212,6 +216,7 @@ impl SrtpSession {
         let ssrc = u32::from_be_bytes([packet[4], packet[5], packet[6], packet[7]]);
 
         self.evict_stale_tx(ssrc);
+        self.refuse_new_tx_context_if_full(ssrc)?;
         let ctx = match self.tx_contexts.entry(ssrc) {
             Entry::Occupied(e) => e.into_mut(),
             Entry::Vacant(e) => e.insert(SrtpContext::new(
@@ -267,6 +272,17 @@ impl SrtpSession {
             .count();
         if live >= MAX_RX_CONTEXTS {
             return Err(SrtpError::Internal("too many SRTP receive contexts".to_string()));
+        }
+        Ok(())
+    }
+
+    /// The transmit side of the bound: a relay that forwards whatever SSRC arrives on an
+    /// unauthenticated leg would otherwise create one protect context (keys, cipher
+    /// schedules) per source SSRC. Idle contexts have just been evicted by the caller, so
+    /// everything still in the table is live.
+    fn refuse_new_tx_context_if_full(&self, ssrc: u32) -> SrtpResult<()> {
+        if self.tx_contexts.len() >= MAX_TX_CONTEXTS && !self.tx_contexts.contains_key(&ssrc) {
+            return Err(SrtpError::Internal("too many SRTP transmit contexts".to_string()));
         }
         Ok(())
     }
